@@ -298,11 +298,11 @@ Spec make_spec(const Params& q) {
         break;
     }
     case P_DELAYC: {
-        // Delay<cmplx_t>(const arr_cmplx& initial) does not compile (`_buffer{initial}` selects the initializer-list
-        // constructor through cmplx_t's converting constructor), so only the length constructor can be exercised
         const int D = q.i1;
+        const bool init = q.i2 != 0;
+        const arr_cmplx b = coef_cmplx(q.ps, D);
         sp.skind = SK_CMPLX; sp.memory = D; sp.chans = {"y"};
-        sp.make = factory<DelayCmplx>([=]() { return std::make_shared<DelayCmplx>(D); },
+        sp.make = factory<DelayCmplx>([=]() { return init ? std::make_shared<DelayCmplx>(b) : std::make_shared<DelayCmplx>(D); },
                                       [](DelayCmplx& f, const Stream& s, int lo, int hi, int form, Chans& o) {
                                           const arr_cmplx x = s.cmplx(lo, hi);
                                           put(o, 0, form == 1 ? f(x) : f.process(x));
